@@ -111,6 +111,7 @@ func (n *LocalNode) stabilize() error {
 }
 
 func (n *LocalNode) updateSuccessorsList(listHash uint64, succList []chord.VNode) {
+	verifPoint("stab.update", n)
 	n.succListHash.Store(listHash)
 	n.successors = succList
 
